@@ -33,7 +33,7 @@ def evaluate(case):
     nontrivial = False
     if fail is None:
         sample["selfies"] = e[:200]
-        if not isinstance(e, str) or WELL_FORMED.match(e) is None:
+        if not isinstance(e, str) or WELL_FORMED.fullmatch(e) is None:
             fail = Fail("malformed_selfies", smiles=case["smiles"][:300], selfies=str(e)[:300])
     if fail is None:
         nontrivial = bool(re.search(r"(Ring|Branch)[23]\]", e))
